@@ -535,6 +535,11 @@ type client struct {
 	quitOnce sync.Once
 	quit     chan struct{}
 	done     chan struct{}
+
+	// sendMu orders Send against the final drain: Send enqueues under the read
+	// lock, drained is set under the write lock once both loops have exited.
+	sendMu  sync.RWMutex
+	drained bool
 }
 
 func newClient(conn net.Conn, cfg *config, logger log.Logger, options ...clientOption) (*client, error) {
@@ -606,18 +611,30 @@ func (c *client) Start() {
 		close(c.quit)
 	})
 	<-writeDone
+	c.sendMu.Lock()
+	c.drained = true
+	c.sendMu.Unlock()
 	verifPause("client.start.drain", c)
 	c.drainRequests()
 	close(c.done)
 }
 
 func (c *client) Send(req *simpleRequest) {
+	c.sendMu.RLock()
+	if c.drained {
+		c.sendMu.RUnlock()
+		req.SetResponse(newError(backendExited))
+		return
+	}
+	verifPause("client.send.checked", c)
+	// whatever is enqueued here is seen by the final drain, which cannot start
+	// before the read lock is released; quit keeps a full queue from blocking.
 	select {
 	case <-c.quit:
+		c.sendMu.RUnlock()
 		req.SetResponse(newError(backendExited))
-	default:
-		verifPause("client.send.checked", c)
-		c.pendingReqs <- req
+	case c.pendingReqs <- req:
+		c.sendMu.RUnlock()
 	}
 }
 
